@@ -521,7 +521,7 @@ static int add_fetch_to_state_and_notify(const struct peer *p, struct element *e
 		}
 		if (unlikely(notify_fetching_peer(e, f, "add") != 0)) {
 			log_peer_err(p, "Can't notify fetching peer for state %s owned by %s", e->path, get_peer_name(e->peer));
-			return -1;
+			return 1;
 		}
 	}
 	return 0;
@@ -661,7 +661,12 @@ static int find_fetchers_for_element_in_peer(const struct peer *p,
 	struct list_head *tmp;
 	list_for_each_safe (item, tmp, &p->fetch_list) {
 		struct fetch *f = list_entry(item, struct fetch, next_fetch);
-		if (unlikely(add_fetch_to_state_and_notify(p, e, f) != 0)) {
+		/*
+		 * A subscriber that could not be told about the new element (result > 0)
+		 * only harms itself: it must neither undo the add of another peer nor keep
+		 * the remaining subscribers from being told.
+		 */
+		if (unlikely(add_fetch_to_state_and_notify(p, e, f) < 0)) {
 			return -1;
 		}
 	}
